@@ -25,7 +25,7 @@ AreaNear(obs, twice, upm) == upm = 0 \/ AbsI(obs * upm * upm - twice * 5000) <= 
 WallOk(b, c, w, mmu, div, tol, upm) ==
   LET k == w.tag.kind IN
   CASE k = "edge" ->
-         /\ Chk("WallOnEdgeSpansThatEdgeOverTheStoreyHeight", SameCorners(w.corners, EdgeWallCorners(b, b.sp, w.tag.i), mmu, div, tol))
+         /\ Chk("WallOnEdgeSpansThatEdgeOverTheStoreyHeight", SameCorners(w.corners, EdgeWallCornersZ(b, b.sp, w.tag.i, IF "dz" \in DOMAIN w.tag THEN w.tag.dz ELSE 0), mmu, div, tol))
          /\ Chk("OutwardNormalPointsAwayFromTheSpace", SameDir(w.normal, EdgeWallNormal(b, b.sp, w.tag.i)) /\ SameDir(w.nrep, EdgeWallNormal(b, b.sp, w.tag.i)))
          /\ Chk("AreaEqualsSourcePolygonArea", upm = 0 \/ HasRoot(EdgeLen2(b.sp, w.tag.i)) => AreaNear(w.area, 2 * Root(EdgeLen2(b.sp, w.tag.i)) * b.sp.h, upm))
     [] k = "top" ->
